@@ -47,6 +47,7 @@ def validate_chunks(ctx, module, tag, traces, chunk=2000, extra_data=None, max_p
             k = str(r.get('ev')) + ((':' + str(r.get('kind'))) if r.get('kind') is not None and isinstance(r.get('kind'), str) else '')
             hist[k] = hist.get(k, 0) + 1
     ed = dict(extra_data or {})
+    ed.setdefault('pid', ctx.pid)      # a trace spec shared by several properties evaluates the clauses of the others as strict-only
     bad = _run_chunks(ctx, module, tag, traces, chunk, dict(ed, strict=True), max_procs, timeout, kw)
     adv = {i: why for i, why in bad.items() if is_advisory(why)}
     if adv:
